@@ -35,6 +35,7 @@ type c06Case struct {
 	Enc         string   `json:"enc"`
 	Clen        string   `json:"clen"`
 	SetDefaults bool     `json:"setDefaults"`
+	Sch         any      `json:"sch"`
 }
 
 func renderMT(m any) string {
@@ -88,7 +89,10 @@ func c06Run(c *Case) []any {
 		if tc.Schema == "S1" {
 			req = []any{"n", "ro"}
 		}
-		schema := map[string]any{"type": "object", "required": req, "properties": props}
+		var schema any = map[string]any{"type": "object", "required": req, "properties": props}
+		if tc.Sch != nil && tc.Family != "text" {
+			schema = absSchemaToOpenAPI(tc.Sch) // the abstract schema TLC judged the body against
+		}
 		v := tc.V.(map[string]any)
 		fields := func() (keys []string, vals [][]string) {
 			ks, vs := asSlice(v["k"]), asSlice(v["v"])
